@@ -62,6 +62,17 @@ func fieldsEqual(a, b reflect.Value) bool {
 		return a.FieldByName("BufferFormat").Uint() == b.FieldByName("BufferFormat").Uint() && bytes.Equal(a.FieldByName("Buffer").Bytes(), b.FieldByName("Buffer").Bytes())
 	case "types.OEM_STRING":
 		return fieldsEqual(a.FieldByName("SMB_STRING"), b.FieldByName("SMB_STRING"))
+	case "dialects.Dialects":
+		x, y := a.FieldByName("Dialects"), b.FieldByName("Dialects")
+		if x.Len() != y.Len() {
+			return false
+		}
+		for i := 0; i < x.Len(); i++ {
+			if x.Index(i).String() != y.Index(i).String() {
+				return false
+			}
+		}
+		return true
 	case "types.SMB_RESUME_KEY":
 		return a.FieldByName("Reserved").Uint() == b.FieldByName("Reserved").Uint() && reflect.DeepEqual(a.FieldByName("ServerState").Interface(), b.FieldByName("ServerState").Interface()) && reflect.DeepEqual(a.FieldByName("ClientState").Interface(), b.FieldByName("ClientState").Interface())
 	case "types.SMB_DIRECTORY_INFORMATION":
